@@ -12,46 +12,59 @@ Open Scope list_scope.
 (** (1) FULL STATEMENT (all forests): on every strict-valid forest relaxed mode returns the rules of strict mode
     (rule = kind, name, expr, for, labels, annotations with their line extents, error, first/last line).
     It is FALSE of the faithful model and of pint — see [C19_relaxed_eq_strict_refuted_tag_kind] below — for
-    one pathological class; the partial theorem carries the exact guard [wf_doc]:
+    one pathological class; the partial theorem carries the guard [wf_doc]:
       - the document node is a document and its roots are not aliases (true of every yaml.v3 forest);
       - alias fields only on alias nodes (true of every yaml.v3 forest);
       - a node tagged !!map / !!seq / !!null that is not a mapping / sequence has no content and no
-        embedded document, i.e. no explicit tag contradicting the node kind (known finding C19-tag-kind).
+        embedded document, i.e. no explicit tag contradicting the node kind.  Since fix b22de24 strict mode itself
+        rejects the !!map / !!seq part of this at every node it visits; what remains of the known finding
+        C19-tag-kind is the !!null tag on a mapping / sequence WITH content (see the refutation below); the
+        guard is kept in its old form (sufficient, no longer minimal).
     (A second class found by the proof attempt — alias nodes used as mapping keys, read through the anchor
     NAME by strict mode — was repaired in pint by commit 3dfcdb6; the guard clause is gone, the witness
     corpus/C19/alias_key.yaml is now rejected by strict mode, see [C19_alias_key_now_rejected].) *)
 Definition C19_full_statement : Prop :=
-  forall plines metric_ok lname_ok lvalue_ok dur_ok int_ok thanos lines d nl,
-    strict_valid (parse_strict plines metric_ok lname_ok lvalue_ok dur_ok int_ok thanos lines [(d, nl)] None) ->
+  forall plines metric_ok lname_ok lvalue_ok dur_ok int_ok null_ok thanos lines d nl,
+    strict_valid (parse_strict plines metric_ok lname_ok lvalue_ok dur_ok int_ok null_ok thanos lines [(d, nl)] None) ->
     exists f', parse_relaxed plines metric_ok lname_ok lvalue_ok lines [(d, nl)] None = Some f' /\
                all_rules (f_groups f') =
-               all_rules (f_groups (parse_strict plines metric_ok lname_ok lvalue_ok dur_ok int_ok thanos lines [(d, nl)] None)).
+               all_rules (f_groups (parse_strict plines metric_ok lname_ok lvalue_ok dur_ok int_ok null_ok thanos lines [(d, nl)] None)).
 
 Theorem C19_relaxed_eq_strict_partial :
-  forall plines metric_ok lname_ok lvalue_ok dur_ok int_ok thanos lines d nl,
+  forall plines metric_ok lname_ok lvalue_ok dur_ok int_ok null_ok thanos lines d nl,
     wf_doc d ->
-    strict_valid (parse_strict plines metric_ok lname_ok lvalue_ok dur_ok int_ok thanos lines [(d, nl)] None) ->
+    strict_valid (parse_strict plines metric_ok lname_ok lvalue_ok dur_ok int_ok null_ok thanos lines [(d, nl)] None) ->
     exists f', parse_relaxed plines metric_ok lname_ok lvalue_ok lines [(d, nl)] None = Some f' /\
                f_error f' = None /\
                all_rules (f_groups f') =
-               all_rules (f_groups (parse_strict plines metric_ok lname_ok lvalue_ok dur_ok int_ok thanos lines [(d, nl)] None)).
+               all_rules (f_groups (parse_strict plines metric_ok lname_ok lvalue_ok dur_ok int_ok null_ok thanos lines [(d, nl)] None)).
 Proof. exact relaxed_eq_strict_doc. Qed.
 Print Assumptions C19_relaxed_eq_strict_partial.
 
 (** One document is the general case: strict mode rejects every stream with a yaml error or with two or more documents. *)
 Theorem C19_strict_valid_single_doc :
-  forall plines metric_ok lname_ok lvalue_ok dur_ok int_ok thanos lines ds yerr,
-    strict_valid (parse_strict plines metric_ok lname_ok lvalue_ok dur_ok int_ok thanos lines ds yerr) ->
+  forall plines metric_ok lname_ok lvalue_ok dur_ok int_ok null_ok thanos lines ds yerr,
+    strict_valid (parse_strict plines metric_ok lname_ok lvalue_ok dur_ok int_ok null_ok thanos lines ds yerr) ->
     yerr = None /\ (ds = [] \/ exists d nl, ds = [(d, nl)]).
 Proof. exact strict_valid_single. Qed.
 Print Assumptions C19_strict_valid_single_doc.
 
-(** Refutation of the full statement (witness = corpus/C19/tag_kind_mismatch.yaml as serialised from yaml.v3;
-    it also fails on the real pint binary). *)
+(** Refutation of the full statement (witness = corpus/C19/tag_kind_null.yaml as serialised from yaml.v3;
+    it also fails on the real pint binary of HEAD 5b88941). *)
 Definition pl0 (_ : list string) (n : node) (_ : nat) : nat * nat := (n_line n, n_line n).
 Definition yes (_ : string) : bool := true.
 
+(** `rules: !!null {? {record: a, expr: up} : {record: b, expr: up}}` (corpus/C19/tag_kind_null.yaml): since fix b22de24
+    strict mode rejects an explicit !!seq / !!map tag that contradicts the node kind, but kindMismatch exempts the
+    !!null tag (an empty `rules:` must stay legal), also when the node is a mapping with content. *)
 Definition witness_tag_kind : node :=
+  Dc 1 1 4 [Mp "!!map" 1 1 4 [Sc "!!str" "groups" 1 1 23; Sq "!!seq" 2 1 4 [Mp "!!map" 2 3 4
+    [Sc "!!str" "name" 2 3 23; Sc "!!str" "g" 2 9 23; Sc "!!str" "rules" 3 3 23;
+     Mp "!!null" 3 10 4 [Mp "!!map" 4 7 4 [Sc "!!str" "record" 4 8 23; Sc "!!str" "a" 4 16 23; Sc "!!str" "expr" 4 19 23; Sc "!!str" "up" 4 25 23];
+                         Mp "!!map" 5 7 4 [Sc "!!str" "record" 5 8 23; Sc "!!str" "b" 5 16 23; Sc "!!str" "expr" 5 19 23; Sc "!!str" "up" 5 25 23]]]]]].
+
+(** the witness of the class b22de24 closed (corpus/C19/tag_kind_mismatch.yaml: `rules: !!seq` on a flow mapping) *)
+Definition witness_seq_tag_on_mapping : node :=
   Dc 1 1 4 [Mp "!!map" 1 1 4 [Sc "!!str" "groups" 1 1 23; Sq "!!seq" 2 1 4 [Mp "!!map" 2 3 4
     [Sc "!!str" "name" 2 3 23; Sc "!!str" "g" 2 9 23; Sc "!!str" "rules" 3 3 23;
      Mp "!!seq" 3 10 4 [Mp "!!map" 4 7 4 [Sc "!!str" "record" 4 8 23; Sc "!!str" "a" 4 16 23; Sc "!!str" "expr" 4 19 23; Sc "!!str" "up" 4 25 23];
@@ -68,7 +81,7 @@ Definition errors_of (f : file) : list (option perror) :=
   f_error f :: flat_map (fun g => g_error g :: map r_error (g_rules g)) (f_groups f).
 
 Definition refutes (d : node) : Prop :=
-  let s := parse_strict pl0 yes yes yes yes (fun _ => true) false [] [(d, 0)] None in
+  let s := parse_strict pl0 yes yes yes yes (fun _ => true) (fun _ => true) false [] [(d, 0)] None in
   forallb (fun e => match e with None => true | Some _ => false end) (errors_of s) = true /\
   List.length (all_rules (f_groups s)) <> 0 /\
   exists f', parse_relaxed pl0 yes yes yes [] [(d, 0)] None = Some f' /\ all_rules (f_groups f') = [].
@@ -77,10 +90,18 @@ Theorem C19_relaxed_eq_strict_refuted_tag_kind : refutes witness_tag_kind.
 Proof. unfold refutes. vm_compute. repeat split; try discriminate. eexists. split; reflexivity. Qed.
 Print Assumptions C19_relaxed_eq_strict_refuted_tag_kind.
 
+(** Regression of the part of the tag-kind class repaired by b22de24: strict mode now reports an error for
+    `rules: !!seq {? rule : rule}`. *)
+Theorem C19_seq_tag_on_mapping_now_rejected :
+  existsb (fun e => match e with Some _ => true | None => false end)
+          (errors_of (parse_strict pl0 yes yes yes yes (fun _ => true) (fun _ => true) false [] [(witness_seq_tag_on_mapping, 0)] None)) = true.
+Proof. vm_compute. reflexivity. Qed.
+Print Assumptions C19_seq_tag_on_mapping_now_rejected.
+
 (** Regression of the repaired alias-key defect: strict mode now reports an error for the witness. *)
 Theorem C19_alias_key_now_rejected :
   existsb (fun e => match e with Some _ => true | None => false end)
-          (errors_of (parse_strict pl0 yes yes yes yes (fun _ => true) false [] [(witness_alias_key, 0)] None)) = true.
+          (errors_of (parse_strict pl0 yes yes yes yes (fun _ => true) (fun _ => true) false [] [(witness_alias_key, 0)] None)) = true.
 Proof. vm_compute. reflexivity. Qed.
 Print Assumptions C19_alias_key_now_rejected.
 
@@ -151,7 +172,7 @@ Example C19_nonvacuous :
   (exists f, parse_relaxed pl0 yes yes yes [] [(ex_k8s, 0)] None = Some f /\
              map (fun r => match r_body r with Recording n e _ => (y_value n, y_value e, r_first r, r_last r) | _ => ("", "", 0, 0) end)
                  (all_rules (f_groups f)) = [("a:b", "up", 8, 9)]) /\
-  (let s := parse_strict pl0 yes yes yes yes (fun _ => true) false [] [(ex_strict, 0)] None in
+  (let s := parse_strict pl0 yes yes yes yes (fun _ => true) (fun _ => true) false [] [(ex_strict, 0)] None in
    forallb (fun e => match e with None => true | Some _ => false end) (errors_of s) = true /\
    List.length (all_rules (f_groups s)) = 1 /\
    exists f, parse_relaxed pl0 yes yes yes [] [(ex_strict, 0)] None = Some f /\ all_rules (f_groups f) = all_rules (f_groups s)).
